@@ -10,11 +10,16 @@
 (* function  Do(s, req) = [s |-> next state, rep |-> reply, ctx |-> how    *)
 (* the owner sequence number of the request was classified].  The actions  *)
 (* have the granularity of the real code's lock sections: an I/O operation *)
-(* that is held inside the leaf is two steps (IOStart, IOEnd), expiry of   *)
-(* leases and of unused open-owners happens inside enter() (Expire), CLOSE *)
-(* is two-phase (RemoveStart now, RemoveFinalize at the owner's next       *)
-(* transaction).  The same operators are used by the exhaustive design     *)
-(* check (MC_NFS40_*.cfg) and by trace validation (NFS40Trace.tla).        *)
+(* that is held inside the leaf is two steps (IOStart, IOEnd), so is an    *)
+(* OPEN (OpenStart, OpenEnd: the server lock is dropped while the file is  *)
+(* opened; requests of the same open-owner, among them retransmissions of  *)
+(* the OPEN, wait for it: Blocked), expiry of leases and of unused         *)
+(* open-owners happens inside enter() (Expire), CLOSE is two-phase         *)
+(* (RemoveStart now, RemoveFinalize at the owner's next transaction).      *)
+(* Where the properties leave the outcome of a request open, the request   *)
+(* record carries the choice (fields lax, rej, twin of Blank).  The same   *)
+(* operators are used by the exhaustive design check (MC_NFS40_*.cfg) and  *)
+(* by trace validation (NFS40Trace.tla).                                   *)
 (*                                                                         *)
 (* Identifiers are tokens: client confirmations, state ids and files are   *)
 (* numbered 1,2,3.. in the order in which the server reveals them.         *)
@@ -22,9 +27,21 @@
 EXTENDS Integers, Sequences, FiniteSets, TLC
 
 CONSTANTS Lease,     \* enforced lease time in clock ticks
-          NB         \* byte positions 0..NB; position NB = offset 2^64-1
+          NB         \* byte positions 0..NB; position NB = offset 2^64-1 (the last byte)
 
-Bytes == 0 .. (NB - 1)
+\* Byte b < NB stands for the offsets [10b, 10b + 10); byte NB is the single
+\* offset 2^64-1.  The server's range of lockable offsets is 0 .. 2^64-2:
+\* an explicit range cannot end beyond 2^64-2 (offset + length > 2^64-1 is
+\* NFS4ERR_INVAL, RFC 7530 section 16.10.4) and a range that starts at 2^64-1
+\* is refused (NFS4ERR_BAD_RANGE: not appropriate to the allowable range of
+\* offsets for the server).  So no accepted request can name byte 2^64-1 by
+\* itself: "through end of file" (length all ones) and [x, 2^64-1) are the
+\* same set of lockable bytes, and the model identifies the two (both cover
+\* byte NB, about which nothing is demanded by itself).  Byte NB matters only
+\* for requests that START at it: refusing them is fine (any error); a server
+\* that accepts them must treat the byte like any other (two owners are not
+\* both granted it unless both shared, LOCKT reports the conflict).
+Bytes == 0 .. NB
 
 -----------------------------------------------------------------------------
 (* Generic helpers on finite maps.                                         *)
@@ -33,6 +50,12 @@ Put(f, k, v) == [x \in (DOMAIN f) \cup {k} |-> IF x = k THEN v ELSE f[x]]
 Del(f, K)    == [x \in (DOMAIN f) \ K |-> f[x]]
 EmptyMap     == << >>
 Max(a, b)    == IF a >= b THEN a ELSE b
+
+\* Owner sequence numbers are 32 bit on the wire and wrap from 2^32-1 to 1
+\* (nextSeqID, RFC 7530 section 9.1.3).  Wire values >= 2^31 are written as
+\* negative numbers here (2^32-1 = -1, 2^32-2 = -2) because TLC integers
+\* are 32 bit.
+Nxt(q) == IF q = -1 THEN 1 ELSE q + 1
 
 RECURSIVE FoldSet(_, _, _)
 \* FoldSet(Op, acc, S): apply Op(acc, x) for every x in S (order irrelevant
@@ -51,7 +74,33 @@ PreErr(e)     == [BlankRep EXCEPT !.pre = e]
 OkRep         == Err("OK")
 SidRep(t, q)  == [BlankRep EXCEPT !.st = "OK", !.t = t, !.q = q]
 
-NoResp == [op |-> "none", rep |-> BlankRep, closed |-> 0]
+\* An abstract request (one COMPOUND: PUTFH/PUTROOTFH, the operation, GETFH).
+Blank(op) ==
+  [op |-> op, fh |-> -1, cid |-> 0, verf |-> 0, cl |-> 0, cv |-> 0, ok |-> "", lk |-> "",
+   seq |-> 0, lseq |-> 0, sk |-> "none", st |-> 0, sq |-> 0, share |-> 0, deny |-> 0,
+   how |-> "NOCREATE", claim |-> "NULL", name |-> "", name2 |-> "", lt |-> "R",
+   s |-> 0, e |-> 0, lenk |-> "norm", newlo |-> FALSE, gate |-> FALSE,
+   \* not content, but which of the outcomes that the properties leave open
+   \* the server chose (the trace specification fills them in from the reply):
+   \* lax: "cache" / "reject" for a request with the seqid and operation type
+   \*      of the cached response but other arguments;
+   \* rej: the error with which a range that consists of the last byte only
+   \*      is refused ("" = it is accepted)
+   \* twin: LOCK with open_to_lock_owner for a lock-owner that already has lock
+   \*      state on the file through another open-owner of its client: FALSE =
+   \*      refused with BAD_SEQID (RFC 7530 section 16.10.5: the existing lock
+   \*      state id must be used; what the server does), TRUE = a second lock
+   \*      state for the same owner and file is created (see Ambiguous in
+   \*      NFS40Trace.tla)
+   lax |-> "cache", rej |-> "", twin |-> FALSE]
+
+\* The content of a request: everything but the driver's instruction to hold
+\* it inside the leaf.
+Content(a) == [a EXCEPT !.gate = FALSE, !.lax = "cache", !.rej = "", !.twin = FALSE]
+SameReq(a, b) == Content(a) = Content(b)
+
+\* Cached response of an owner; req = the request that produced it.
+NoResp == [op |-> "none", rep |-> BlankRep, closed |-> 0, req |-> Blank("NONE")]
 
 \* RFC 7530 section 9.1.7: errors that do not advance the owner's seqid
 \* (transactionShouldComplete in the code).
@@ -103,10 +152,15 @@ Entries(h, o) ==
 HoldsAny(h, o) == \E b \in Bytes : o \in DOMAIN h[b]
 
 \* (offset, length) -> [start, end) as offsetLengthToStartEnd does.
-RangeOK(req) == /\ req.lenk \in {"norm", "eof"}
-                /\ req.s < NB
-                /\ (req.lenk = "norm" => req.s < req.e)
-RangeEnd(req) == IF req.lenk = "eof" THEN NB ELSE req.e
+\* lenk: "norm" [s, e) with e <= NB (e = NB: offset + length = 2^64-1, the
+\* same lockable bytes as "eof"), "eof" length all ones, "one" length 1
+\* (only used with s = NB: INVAL), "zero" length 0, "ovf" offset + length
+\* exceeds 2^64-1.
+RangeOK(req) == \/ req.lenk = "norm" /\ req.s < req.e /\ req.e <= NB
+                \/ req.lenk = "eof" /\ req.s <= NB
+RangeEnd(req) == IF req.lenk = "eof" \/ req.e = NB THEN NB + 1 ELSE req.e
+\* The range starts at the last byte (and so consists of it alone).
+LastByteOnly(req) == req.lenk = "eof" /\ req.s = NB
 TableType(lt) == IF lt \in {"R", "RW"} THEN "R" ELSE "W"
 LockTypeOK(lt) == lt \in {"R", "W", "RW", "WW"}
 
@@ -163,7 +217,7 @@ RemoveLofs(s, lt) ==
   LET l  == s.lofs[lt]
       f  == s.oofs[l.ot].f
       o  == <<l.c, l.lk>>
-      s1 == IF l.lc > 0 THEN [s EXCEPT !.held[f] = ApplyLock(@, o, 0, NB, "U")] ELSE s
+      s1 == IF l.lc > 0 THEN [s EXCEPT !.held[f] = ApplyLock(@, o, 0, NB + 1, "U")] ELSE s
       s2 == [s1 EXCEPT !.lofs = Del(@, {lt})]
       s3 == DecCounts(s2, l.ot, l.share)
   IN IF LofsOf(s3, l.c, l.lk) = {} THEN [s3 EXCEPT !.lo = Del(@, {o})] ELSE s3
@@ -219,8 +273,9 @@ ConfirmedConf(s, c) == c \in DOMAIN s.conf /\ s.conf[c].confirmed
 (* Results of one request.                                                 *)
 (* ctx: "none"       no owner sequence number was looked at                *)
 (*      "new"        seqid = last + 1 (or an OPEN on an unconfirmed owner) *)
-(*      "replay"     same seqid, same operation type and state id: cached  *)
-(*      "falseretry" same seqid, but another operation type / state id     *)
+(*      "replay"     same seqid, same content: the cached response         *)
+(*      "falseretry" same seqid, another type of operation                 *)
+(*      "laxretry"   same seqid and type of operation, other arguments     *)
 (*      "misordered" any other seqid                                       *)
 
 Res(s, rep, ctx) == [s |-> s, rep |-> rep, ctx |-> ctx]
@@ -258,14 +313,29 @@ RegularSid(req) ==
 -----------------------------------------------------------------------------
 (* Owner transactions (startTransaction / complete).                       *)
 
-\* What the code compares before it replays a cached response: the
-\* operation type and, for a cached OK response of an operation that takes
-\* a state id, that the cached state id is the successor of the provided
-\* one (isNextStateID).  OPEN and LOCK with open_to_lock_owner compare the
-\* operation type only.
-ReplayMatches(resp, op, req, checkSid) ==
-  /\ resp.op = op
-  /\ (~checkSid \/ resp.rep.st # "OK" \/ (resp.rep.t = req.st /\ resp.rep.q = req.sq + 1))
+\* A request with the seqid of the owner's cached response is
+\*   "replay"      if its content equals the request that produced the cached
+\*                 response: it must get that response;
+\*   "falseretry"  if it is another type of operation: never the cached
+\*                 response (BAD_SEQID);
+\*   "laxretry"    if it is the same type of operation with other arguments:
+\*                 RFC 7530 section 9.1.9 lets the server answer from the cache
+\*                 without comparing, or reject; both are accepted (the pinned
+\*                 code compares the state id of CLOSE, OPEN_CONFIRM,
+\*                 OPEN_DOWNGRADE, LOCK, LOCKU when the cached response is OK,
+\*                 and nothing for OPEN and LOCK with open_to_lock_owner).
+\* None of them has any effect.
+RetryKind(resp, op, req) ==
+  IF SameReq(resp.req, req) THEN "replay"
+  ELSE IF resp.op # op THEN "falseretry"
+  ELSE "laxretry"
+
+\* Outcome of a request that carries the seqid of the owner's cached response.
+Retry(s, resp, op, req) ==
+  LET kd == RetryKind(resp, op, req) IN
+  IF kd = "replay" \/ (kd = "laxretry" /\ req.lax = "cache")
+  THEN [kind |-> "fail", ctx |-> kd, rep |-> resp.rep, s |-> s]
+  ELSE [kind |-> "fail", ctx |-> kd, rep |-> Err("BAD_SEQID"), s |-> s]
 
 IsUnused(s, k) ==
   LET F == OofsOf(s, k) IN
@@ -274,47 +344,43 @@ IsUnused(s, k) ==
   \/ ~s.oo[k].confirmed
 
 \* Returns [kind, s, rep]: kind "go" = transaction started.
-StartOO(s, k, seq, policy, op, req, checkSid) ==
+StartOO(s, k, seq, policy, op, req) ==
   LET o  == s.oo[k]
       go(s1) == [kind |-> "go", ctx |-> "new", rep |-> BlankRep,
                  s |-> Hold([ForgetResp(s1, k) EXCEPT !.oo[k].unused = -1], k[1])]
       bad(ctx) == [kind |-> "fail", ctx |-> ctx, rep |-> Err("BAD_SEQID"), s |-> s]
   IN
-  IF o.resp.op # "none" /\ seq = o.lastseq THEN
-       IF ReplayMatches(o.resp, op, req, checkSid)
-       THEN [kind |-> "fail", ctx |-> "replay", rep |-> o.resp.rep, s |-> s]
-       ELSE bad("falseretry")
+  IF o.resp.op # "none" /\ seq = o.lastseq THEN Retry(s, o.resp, op, req)
   ELSE IF o.confirmed \/ policy = "allow" THEN
-       IF seq = o.lastseq + 1 THEN go(s) ELSE bad("misordered")
+       IF seq = Nxt(o.lastseq) THEN go(s) ELSE bad("misordered")
   ELSE IF policy = "deny" THEN bad("misordered")
   ELSE go(Reinit(s, k))
 
-CompleteOO(s, k, seq, op, rep, closed) ==
-  LET s1 == IF Completes(rep.st)
+CompleteOO(s, k, req, op, rep, closed) ==
+  LET seq == req.seq
+      s1 == IF Completes(rep.st)
             THEN [s EXCEPT !.oo[k].lastseq = seq,
-                           !.oo[k].resp = [op |-> op, rep |-> rep, closed |-> closed]]
+                           !.oo[k].resp = [op |-> op, rep |-> rep, closed |-> closed, req |-> req]]
             ELSE s
       s2 == IF IsUnused(s1, k) THEN [s1 EXCEPT !.oo[k].unused = s1.now] ELSE s1
   IN Release(s2, k[1])
 
-StartLO(s, lk, lseq, initial, op, req, checkSid) ==
+StartLO(s, lk, lseq, initial, op, req) ==
   LET l == s.lo[lk]
       bad(ctx) == [kind |-> "fail", ctx |-> ctx, rep |-> Err("BAD_SEQID"), s |-> s]
   IN
-  IF l.resp.op # "none" /\ lseq = l.lastseq THEN
-       IF ReplayMatches(l.resp, op, req, checkSid)
-       THEN [kind |-> "fail", ctx |-> "replay", rep |-> l.resp.rep, s |-> s]
-       ELSE bad("falseretry")
-  ELSE IF ~initial /\ lseq # l.lastseq + 1 THEN bad("misordered")
+  IF l.resp.op # "none" /\ lseq = l.lastseq THEN Retry(s, l.resp, op, req)
+  ELSE IF ~initial /\ lseq # Nxt(l.lastseq) THEN bad("misordered")
   ELSE [kind |-> "go", ctx |-> "new", rep |-> BlankRep,
         s |-> Hold([s EXCEPT !.lo[lk].resp = NoResp], lk[1])]
 
 \* complete() of a lock-owner transaction; the lock-owner may already have
 \* been removed together with its last file.
-CompleteLO(s, lk, lseq, op, rep) ==
-  LET s1 == IF Completes(rep.st) /\ lk \in DOMAIN s.lo
+CompleteLO(s, lk, req, op, rep) ==
+  LET lseq == req.lseq
+      s1 == IF Completes(rep.st) /\ lk \in DOMAIN s.lo
             THEN [s EXCEPT !.lo[lk].lastseq = lseq,
-                           !.lo[lk].resp = [op |-> op, rep |-> rep, closed |-> 0]]
+                           !.lo[lk].resp = [op |-> op, rep |-> rep, closed |-> 0, req |-> req]]
             ELSE s
   IN Release(s1, lk[1])
 
@@ -414,18 +480,39 @@ TxOpen(s, req, k) ==
          [] req.claim = "DCUR" -> fail("RECLAIM_BAD")
          [] OTHER -> fail("NOTSUPP")
 
-DoOpen(s0, req) ==
+\* OPEN drops the server lock while the file is opened (VirtualOpenChild /
+\* VirtualOpenSelf may block), so it is two steps: OpenStart starts the
+\* open-owner transaction (which holds the client and makes every other
+\* request for the open-owner wait), OpenEnd re-enters, does the bookkeeping
+\* of the opened file and completes the transaction.  OpenStart returns
+\* [s, rep, ctx, io]: io = the in-flight record, or [kind |-> "fail"] if the
+\* request completed in the first step with the reply rep.
+OpenStart(s0, req) ==
   LET s == Expire(s0)
       c == req.cid
       k == <<c, req.ok>>
-  IN IF ~ConfirmedConf(s, c) THEN Res(s, Err("STALE_CLIENTID"), "none")
+      fail(st, rep, ctx) == [s |-> st, rep |-> rep, ctx |-> ctx, io |-> [kind |-> "fail"]]
+  IN IF ~ConfirmedConf(s, c) THEN fail(s, Err("STALE_CLIENTID"), "none")
      ELSE LET s1 == IF k \in DOMAIN s.oo THEN s
                     ELSE [s EXCEPT !.oo = Put(@, k, [confirmed |-> FALSE, lastseq |-> 0,
                                                      resp |-> NoResp, unused |-> -1])]
-              tx == StartOO(s1, k, req.seq, "reinit", "OPEN", req, FALSE)
-          IN IF tx.kind # "go" THEN Res(tx.s, tx.rep, tx.ctx)
-             ELSE LET r == TxOpen(tx.s, req, k)
-                  IN Res(CompleteOO(r.s, k, req.seq, "OPEN", r.rep, 0), r.rep, "new")
+              tx == StartOO(s1, k, req.seq, "reinit", "OPEN", req)
+          IN IF tx.kind # "go" THEN fail(tx.s, tx.rep, tx.ctx)
+             ELSE [s |-> tx.s, rep |-> BlankRep, ctx |-> "new",
+                   io |-> [kind |-> "open", t |-> 0, c |-> c, bits |-> {}, f |-> 0, k |-> k, req |-> req]]
+
+OpenEnd(s0, io) ==
+  LET s == Expire(s0)
+      r == TxOpen(s, io.req, io.k)
+  IN [s |-> CompleteOO(r.s, io.k, io.req, "OPEN", r.rep, 0), rep |-> r.rep]
+
+DoOpen(s0, req) ==
+  LET a == OpenStart(s0, req) IN
+  IF a.io.kind = "fail" THEN Res(a.s, a.rep, a.ctx)
+  ELSE LET b == OpenEnd(a.s, a.io) IN Res(b.s, b.rep, "new")
+
+\* The open-owner has a transaction in progress (an OPEN is in flight).
+OpenOwnerBusy(s, k) == \E i \in DOMAIN s.io : s.io[i].kind = "open" /\ s.io[i].k = k
 
 -----------------------------------------------------------------------------
 (* OPEN_CONFIRM, OPEN_DOWNGRADE, CLOSE.                                    *)
@@ -437,10 +524,10 @@ OpenSidOp(s0, req, op, policy, Tx(_, _)) ==
   ELSE LET s == Expire(s0) IN
        IF req.st \notin DOMAIN s.oofs \/ s.oofs[req.st].st = "gone" THEN Res(s, Err("BAD_STATEID"), "none")
        ELSE LET k  == <<s.oofs[req.st].c, s.oofs[req.st].ok>>
-                tx == StartOO(s, k, req.seq, policy, op, req, TRUE)
+                tx == StartOO(s, k, req.seq, policy, op, req)
             IN IF tx.kind # "go" THEN Res(tx.s, tx.rep, tx.ctx)
                ELSE LET r == Tx(tx.s, k)
-                    IN Res(CompleteOO(r.s, k, req.seq, op, r.rep, r.closed), r.rep, "new")
+                    IN Res(CompleteOO(r.s, k, req, op, r.rep, r.closed), r.rep, "new")
 
 DoOpenConfirm(s0, req) ==
   LET Tx(s, k) ==
@@ -477,6 +564,7 @@ DoClose(s0, req) ==
 \* OpenedFile.Lock on the table of file f for owner o: "INVAL", "DENIED" or "OK".
 LockOutcome(s, f, o, req) ==
   IF ~RangeOK(req) THEN "INVAL"
+  ELSE IF LastByteOnly(req) /\ req.rej # "" THEN req.rej
   ELSE IF ~LockTypeOK(req.lt) THEN "INVAL"
   ELSE IF Conflicts(s.held[f], o, req.s, RangeEnd(req), TableType(req.lt)) THEN "DENIED"
   ELSE "OK"
@@ -501,18 +589,24 @@ TxLockInitial(s, req, k) ==
   IN
   IF st # "OK" THEN [s |-> s, rep |-> Err(st), ctx |-> "new"]
   ELSE IF req.cid # k[1] THEN [s |-> s, rep |-> Err("INVAL"), ctx |-> "new"]
-  ELSE IF lk \in DOMAIN s.lo /\ \E x \in LofsOn(s, t) : s.lofs[x].lk = req.lk
+  \* the lock-owner already has lock state on this file (through this open-owner
+  \* or another one of the client): byte-range locks are owned by the lock-owner,
+  \* so one lock state accounts for them and must be used (LOCK without
+  \* open_to_lock_owner)
+  ELSE IF lk \in DOMAIN s.lo /\ \E x \in LofsOf(s, k[1], req.lk) :
+                                    /\ s.oofs[s.lofs[x].ot].f = s.oofs[t].f
+                                    /\ (s.lofs[x].ot = t \/ ~req.twin)
        THEN [s |-> s, rep |-> Err("BAD_SEQID"), ctx |-> "misordered"]
   ELSE LET initial == lk \notin DOMAIN s.lo
            s1 == IF initial THEN [s EXCEPT !.lo = Put(@, lk, [lastseq |-> 0, resp |-> NoResp])] ELSE s
-           tx == StartLO(s1, lk, req.lseq, initial, "LOCK", req, FALSE)
+           tx == StartLO(s1, lk, req.lseq, initial, "LOCK", req)
        IN IF tx.kind # "go" THEN [s |-> tx.s, rep |-> tx.rep, ctx |-> tx.ctx]
           ELSE LET f   == s.oofs[t].f
                    out == LockOutcome(tx.s, f, lk, req)
                IN IF out # "OK"
                   THEN \* the new lock-owner file is removed again; a lock-owner
                        \* without files is removed with it
-                       LET s2 == CompleteLO(tx.s, lk, req.lseq, "LOCK", Err(out))
+                       LET s2 == CompleteLO(tx.s, lk, req, "LOCK", Err(out))
                        IN [s |-> IF initial THEN [s2 EXCEPT !.lo = Del(@, {lk})] ELSE s2, rep |-> Err(out), ctx |-> "new"]
                   ELSE LET lt == tx.s.nsid + 1
                            s2 == IncCounts(tx.s, t, s.oofs[t].share)
@@ -520,7 +614,7 @@ TxLockInitial(s, req, k) ==
                                             !.lofs = Put(@, lt, [c |-> k[1], lk |-> req.lk, ot |-> t,
                                                                  share |-> s.oofs[t].share, q |-> 0, lc |-> 0])]
                            r  == LockCommon(s3, lt, req)
-                       IN [s |-> CompleteLO(r.s, lk, req.lseq, "LOCK", r.rep), rep |-> r.rep, ctx |-> "new"]
+                       IN [s |-> CompleteLO(r.s, lk, req, "LOCK", r.rep), rep |-> r.rep, ctx |-> "new"]
 
 DoLock(s0, req) ==
   LET s == Expire(s0) IN
@@ -528,35 +622,36 @@ DoLock(s0, req) ==
   ELSE IF req.newlo THEN
        IF req.st \notin DOMAIN s.oofs \/ s.oofs[req.st].st = "gone" THEN Res(s, Err("BAD_STATEID"), "none")
        ELSE LET k  == <<s.oofs[req.st].c, s.oofs[req.st].ok>>
-                tx == StartOO(s, k, req.seq, "deny", "LOCK", req, FALSE)
+                tx == StartOO(s, k, req.seq, "deny", "LOCK", req)
             IN IF tx.kind # "go" THEN Res(tx.s, tx.rep, tx.ctx)
                ELSE LET r == TxLockInitial(tx.s, req, k)
-                    IN Res(CompleteOO(r.s, k, req.seq, "LOCK", r.rep, 0), r.rep, r.ctx)
+                    IN Res(CompleteOO(r.s, k, req, "LOCK", r.rep, 0), r.rep, r.ctx)
   ELSE IF req.st \notin DOMAIN s.lofs THEN Res(s, Err("BAD_STATEID"), "none")
        ELSE LET lk == <<s.lofs[req.st].c, s.lofs[req.st].lk>>
-                tx == StartLO(s, lk, req.lseq, FALSE, "LOCK", req, TRUE)
+                tx == StartLO(s, lk, req.lseq, FALSE, "LOCK", req)
             IN IF tx.kind # "go" THEN Res(tx.s, tx.rep, tx.ctx)
                ELSE LET st == GetLOFS(tx.s, req)
                         r  == IF st # "OK" THEN [s |-> tx.s, rep |-> Err(st)] ELSE LockCommon(tx.s, req.st, req)
-                    IN Res(CompleteLO(r.s, lk, req.lseq, "LOCK", r.rep), r.rep, "new")
+                    IN Res(CompleteLO(r.s, lk, req, "LOCK", r.rep), r.rep, "new")
 
 DoLocku(s0, req) ==
   LET s == Expire(s0) IN
   IF RegularSid(req) # "OK" THEN Res(s, Err(RegularSid(req)), "none")
   ELSE IF req.st \notin DOMAIN s.lofs THEN Res(s, Err("BAD_STATEID"), "none")
   ELSE LET lk == <<s.lofs[req.st].c, s.lofs[req.st].lk>>
-           tx == StartLO(s, lk, req.lseq, FALSE, "LOCKU", req, TRUE)
+           tx == StartLO(s, lk, req.lseq, FALSE, "LOCKU", req)
        IN IF tx.kind # "go" THEN Res(tx.s, tx.rep, tx.ctx)
           ELSE LET st == GetLOFS(tx.s, req)
                    lt == req.st
                    r  == IF st # "OK" THEN [s |-> tx.s, rep |-> Err(st)]
                          ELSE IF ~RangeOK(req) THEN [s |-> tx.s, rep |-> Err("INVAL")]
+                         ELSE IF LastByteOnly(req) /\ req.rej # "" THEN [s |-> tx.s, rep |-> Err(req.rej)]
                          ELSE LET f  == tx.s.oofs[tx.s.lofs[lt].ot].f
                                   h2 == ApplyLock(tx.s.held[f], lk, req.s, RangeEnd(req), "U")
                                   d  == Entries(h2, lk) - Entries(tx.s.held[f], lk)
                                   s1 == [tx.s EXCEPT !.held[f] = h2, !.lofs[lt].lc = @ + d, !.lofs[lt].q = @ + 1]
                               IN [s |-> s1, rep |-> SidRep(lt, s1.lofs[lt].q)]
-               IN Res(CompleteLO(r.s, lk, req.lseq, "LOCKU", r.rep), r.rep, "new")
+               IN Res(CompleteLO(r.s, lk, req, "LOCKU", r.rep), r.rep, "new")
 
 DoLockt(s0, req) ==
   IF req.fh = -1 THEN Res(s0, Err("NOFILEHANDLE"), "none")
@@ -565,7 +660,9 @@ DoLockt(s0, req) ==
        IF ~ConfirmedConf(s, req.cid) THEN Res(s, Err("STALE_CLIENTID"), "none")
        ELSE LET s1 == Release(Hold(s, req.cid), req.cid)
                 o  == <<req.cid, req.lk>>
-            IN IF ~RangeOK(req) \/ ~LockTypeOK(req.lt) THEN Res(s1, Err("INVAL"), "none")
+            IN IF ~RangeOK(req) THEN Res(s1, Err("INVAL"), "none")
+               ELSE IF LastByteOnly(req) /\ req.rej # "" THEN Res(s1, Err(req.rej), "none")
+               ELSE IF ~LockTypeOK(req.lt) THEN Res(s1, Err("INVAL"), "none")
                ELSE IF req.fh \in DOMAIN s1.held
                        /\ Conflicts(s1.held[req.fh], o, req.s, RangeEnd(req), TableType(req.lt))
                     THEN Res(s1, Err("DENIED"), "none")
@@ -706,6 +803,11 @@ C18_Struct(s) ==
                               /\ s.oofs[s.lofs[x].ot].c = s.lofs[x].c
                               /\ <<s.lofs[x].c, s.lofs[x].lk>> \in DOMAIN s.lo
   /\ \A i \in DOMAIN s.io : s.io[i].kind = "reg" => s.io[i].t \in DOMAIN s.oofs /\ s.conf[s.io[i].c].hold > 0
+  \* an OPEN in flight keeps its client and its open-owner; one transaction per open-owner
+  /\ \A i \in DOMAIN s.io : s.io[i].kind = "open" =>
+        /\ s.io[i].k \in DOMAIN s.oo /\ s.oo[s.io[i].k].unused = -1
+        /\ ConfirmedConf(s, s.io[i].c) /\ s.conf[s.io[i].c].hold > 0
+        /\ \A j \in DOMAIN s.io : (s.io[j].kind = "open" /\ s.io[j].k = s.io[i].k) => j = i
   /\ \A c \in DOMAIN s.conf : s.conf[c].hold >= 0
   /\ \A c, d \in DOMAIN s.conf : (c # d /\ s.conf[c].cl = s.conf[d].cl) => ~(s.conf[c].confirmed /\ s.conf[d].confirmed)
 
@@ -755,12 +857,30 @@ C19_Same(s, req, rep, ctx, t) == ctx = "replay" => rep \in CachedReps(Expire(s),
 \* any other seqid: BAD_SEQID, no effect
 C19_Misordered(s, req, rep, ctx, t) ==
   ctx = "misordered" => rep.st = "BAD_SEQID" /\ Visible(t) = Visible(Expire(s))
-\* same seqid, other operation or state id: never the cached reply
+\* same seqid, other type of operation: never the cached reply
 C19_FalseRetry(s, req, rep, ctx, t) ==
   ctx = "falseretry" => rep.st = "BAD_SEQID" /\ Visible(t) = Visible(Expire(s))
+\* same seqid and type, other arguments: cached reply or rejection, no effect
+C19_LaxRetry(s, req, rep, ctx, t) ==
+  ctx = "laxretry" => /\ (rep.st = "BAD_SEQID" \/ rep \in CachedReps(Expire(s), req))
+                      /\ Visible(t) = Visible(Expire(s))
 
 UsesOpenSid(req) == req.op \in {"CLOSE", "OPEN_DOWNGRADE", "OPEN_CONFIRM"} \/ (req.op = "LOCK" /\ req.newlo)
 UsesLockSid(req) == req.op = "LOCKU" \/ (req.op = "LOCK" /\ ~req.newlo)
+
+\* The request has to wait for the transaction of an open-owner that has an
+\* OPEN in flight (waitForCurrentTransactionCompletion): it completes after
+\* that OPEN, as if it had been sent then.
+Blocked(s0, req) ==
+  LET s == Expire(s0) IN
+  /\ ~(req.fh > 0 /\ ~(req.fh \in DOMAIN s0.leaf /\ Resolves(s0, req.fh)))
+  /\ \/ req.op = "OPEN" /\ ConfirmedConf(s, req.cid) /\ OpenOwnerBusy(s, <<req.cid, req.ok>>)
+     \/ /\ UsesOpenSid(req) /\ RegularSid(req) = "OK"
+        /\ req.st \in DOMAIN s.oofs /\ s.oofs[req.st].st # "gone"
+        /\ OpenOwnerBusy(s, <<s.oofs[req.st].c, s.oofs[req.st].ok>>)
+
+\* The request is a retransmission of an OPEN that is still in flight.
+DupOfInFlight(s, req) == \E i \in DOMAIN s.io : s.io[i].kind = "open" /\ SameReq(s.io[i].req, req)
 OpenSidValid(s, req) ==
   /\ req.sk = "reg" /\ req.st \in DOMAIN s.oofs /\ s.oofs[req.st].st = "open"
   /\ req.fh = s.oofs[req.st].f /\ req.sq = s.oofs[req.st].q
@@ -769,7 +889,7 @@ LockSidValid(s, req) ==
   /\ req.fh = s.oofs[s.lofs[req.st].ot].f /\ req.sq = s.lofs[req.st].q
 \* a state id is honoured only with its file handle, its client and its seqid
 C18_StateIds(s, req, rep, ctx, t) ==
-  (rep.st = "OK" /\ ctx # "replay") =>
+  (rep.st = "OK" /\ ctx \notin {"replay", "laxretry"}) =>
     /\ UsesOpenSid(req) => OpenSidValid(s, req)
     /\ UsesLockSid(req) => LockSidValid(s, req)
     /\ (req.op = "LOCK" /\ req.newlo) => req.cid = s.oofs[req.st].c
@@ -781,8 +901,8 @@ C18_StateIds(s, req, rep, ctx, t) ==
 \* LOCK/LOCKT/LOCKU/RELEASE_LOCKOWNER replies agree with the table.
 C20_Replies(s, req, rep, ctx, t) ==
   LET e == Expire(s) IN
-  /\ (req.op \in {"LOCK", "LOCKU", "LOCKT"} /\ rep.st = "OK" /\ ctx # "replay") => RangeOK(req)
-  /\ (req.op \in {"LOCK", "LOCKT"} /\ rep.st = "DENIED" /\ ctx # "replay") =>
+  /\ (req.op \in {"LOCK", "LOCKU", "LOCKT"} /\ rep.st = "OK" /\ ctx \notin {"replay", "laxretry"}) => RangeOK(req)
+  /\ (req.op \in {"LOCK", "LOCKT"} /\ rep.st = "DENIED" /\ ctx \notin {"replay", "laxretry"}) =>
         \E f \in DOMAIN e.held : \E o \in (DOMAIN e.lo) \cup {<<req.cid, req.lk>>} :
           Conflicts(e.held[f], o, req.s, RangeEnd(req), TableType(req.lt))
   /\ (req.op = "RELEASE_LOCKOWNER" /\ rep.st = "OK") =>
@@ -807,6 +927,10 @@ CONSTANTS Clients, Verifs,   \* client long ids / client verifiers (integers)
           LockTypes,
           TickSet,           \* clock advances
           AnonOps,           \* I/O operations also sent with the anonymous state id
+          GateOpen,          \* OPEN requests that may be held in flight (two steps): "none",
+                             \* "prev" (reclaims by confirmed open-owners), "all"
+          LaxSet, RejSet,    \* outcomes left open that are explored (fields lax, rej of a request)
+          FirstSeqs,         \* owner seqids used for the first request of a new open-owner
           PreClients,        \* clients that are registered and confirmed initially
           MaxConf, MaxSid, MaxFile, MaxSeq, MaxLSeq, MaxClock, MaxIO
 
@@ -815,22 +939,16 @@ VARIABLES s,      \* the server state
 
 vars == <<s, last>>
 
-Blank(op) ==
-  [op |-> op, fh |-> -1, cid |-> 0, verf |-> 0, cl |-> 0, cv |-> 0, ok |-> "", lk |-> "",
-   seq |-> 0, lseq |-> 0, sk |-> "none", st |-> 0, sq |-> 0, share |-> 0, deny |-> 0,
-   how |-> "NOCREATE", claim |-> "NULL", name |-> "", name2 |-> "", lt |-> "R",
-   s |-> 0, e |-> 0, lenk |-> "norm", newlo |-> FALSE, gate |-> FALSE]
-
 NoStep == [kind |-> "init", req |-> Blank("NONE"), rep |-> BlankRep, ctx |-> "none"]
 
 ConfTokens(st) == (DOMAIN st.conf) \cup {0}
-Seqs(lastseq) == {q \in {lastseq + 1 + d : d \in SeqDev} : q >= 0}
+Seqs(lastseq) == {q \in {Nxt(lastseq) + d : d \in SeqDev} : q >= -3}
 SidSeqs(q) == {x \in {q + d : d \in SidDev} : x >= 0}
 FhsFor(st, f) == IF WrongFh THEN {f, -1} \cup {g \in DOMAIN st.leaf : g # f /\ Resolves(st, g)} ELSE {f}
 \* Deviations are applied one at a time: <<owner seqid, state id seqid, file handle>>.
 Variants(st, lastseq, q, f) ==
-  {<<x, q, f>> : x \in Seqs(lastseq)} \cup {<<lastseq + 1, y, f>> : y \in SidSeqs(q)}
-  \cup {<<lastseq + 1, q, g>> : g \in FhsFor(st, f)}
+  {<<x, q, f>> : x \in Seqs(lastseq)} \cup {<<Nxt(lastseq), y, f>> : y \in SidSeqs(q)}
+  \cup {<<Nxt(lastseq), q, g>> : g \in FhsFor(st, f)}
 OpenSids(st) == {t \in DOMAIN st.oofs : st.oofs[t].st # "gone"}
 OOLast(st, c, ok) == IF <<c, ok>> \in DOMAIN st.oo THEN st.oo[<<c, ok>>].lastseq ELSE 0
 
@@ -839,7 +957,8 @@ ReqConfirm(st) == {[Blank("SETCLIENTID_CONFIRM") EXCEPT !.cid = c, !.verf = c] :
 ReqRenew(st) == {[Blank("RENEW") EXCEPT !.cid = c] : c \in ConfTokens(st)}
 ReqOpen(st) ==
   UNION {{[Blank("OPEN") EXCEPT !.fh = 0, !.cid = c, !.ok = ok, !.seq = q, !.name = n, !.share = sh, !.how = h]
-            : q \in Seqs(OOLast(st, c, ok)), n \in Names, sh \in Shares, h \in Hows}
+            : q \in (IF <<c, ok>> \in DOMAIN st.oo THEN Seqs(OOLast(st, c, ok)) ELSE FirstSeqs),
+              n \in Names, sh \in Shares, h \in Hows}
          : c \in DOMAIN st.conf, ok \in OKeys}
 ReqOpenPrev(st) ==
   UNION {{[Blank("OPEN") EXCEPT !.fh = st.oofs[t].f, !.cid = st.oofs[t].c, !.ok = st.oofs[t].ok, !.claim = "PREV",
@@ -851,17 +970,13 @@ ReqOpenSid(st, op) ==
             : v \in Variants(st, OOLast(st, st.oofs[t].c, st.oofs[t].ok), st.oofs[t].q, st.oofs[t].f)}
          : t \in OpenSids(st)}
 ReqDowngrade(st) == {[r EXCEPT !.share = sh] : r \in ReqOpenSid(st, "OPEN_DOWNGRADE"), sh \in Shares}
-\* (A lock-owner that already has lock state on the file through another
-\* open-owner file is not sent through open_to_lock_owner again: the real
-\* server mis-counts in that case, see TestFindings in harness/nfs40.)
 ReqLockNew(st) ==
   UNION {UNION {{[r EXCEPT !.newlo = TRUE, !.cid = st.oofs[r.st].c, !.lk = lk, !.lseq = lq, !.lt = lt,
                            !.s = rg[1], !.e = rg[2], !.lenk = rg[3]]
                    : lt \in LockTypes, rg \in RangeSet,
                      lq \in IF <<st.oofs[r.st].c, lk>> \in DOMAIN st.lo
                             THEN Seqs(st.lo[<<st.oofs[r.st].c, lk>>].lastseq) ELSE {1}}
-                : lk \in {x \in LKeys : ~\E y \in LofsOf(st, st.oofs[r.st].c, x) :
-                                            st.lofs[y].ot # r.st /\ st.oofs[st.lofs[y].ot].f = st.oofs[r.st].f}}
+                : lk \in LKeys}
          : r \in ReqOpenSid(st, "LOCK")}
 ReqLockSid(st, op) ==
   UNION {{[Blank(op) EXCEPT !.fh = v[3], !.sk = "reg", !.st = t, !.sq = v[2], !.lseq = v[1], !.lt = lt,
@@ -910,26 +1025,40 @@ StepWith(r) ==
   /\ s' = o.s
   /\ last' = [kind |-> "op", req |-> r, rep |-> o.rep, ctx |-> o.ctx]
 
-Step == \E r \in Requests(s) : StepWith(r)
+\* A request together with the choice among the outcomes left open.
+Alts(r) == {[r EXCEPT !.lax = lx, !.rej = rj] : lx \in LaxSet, rj \in RejSet}
+
+Step == \E r \in Requests(s) : ~Blocked(s, r) /\ \E a \in Alts(r) : StepWith(a)
 
 \* An I/O request that is held inside the leaf.
 GatedWith(r) ==
   LET g == [r EXCEPT !.gate = TRUE]
       a == IF g.fh > 0 /\ ~Resolves(s, g.fh)
-           THEN [s |-> s, rep |-> PreErr("STALE"), io |-> [kind |-> "fail"]]
-           ELSE IOStart(s, g)
+           THEN [s |-> s, rep |-> PreErr("STALE"), ctx |-> "none", io |-> [kind |-> "fail"]]
+           ELSE IF g.op = "OPEN" THEN OpenStart(s, g)
+           ELSE LET x == IOStart(s, g) IN [s |-> x.s, rep |-> x.rep, ctx |-> "none", io |-> x.io]
   IN IF a.io.kind = "fail"
      THEN /\ s' = a.s
-          /\ last' = [kind |-> "op", req |-> g, rep |-> a.rep, ctx |-> "none"]
+          /\ last' = [kind |-> "op", req |-> g, rep |-> a.rep, ctx |-> a.ctx]
      ELSE /\ s' = [a.s EXCEPT !.nio = @ + 1, !.io = Put(@, a.s.nio + 1, a.io)]
           /\ last' = [kind |-> "iostart", req |-> g, rep |-> BlankRep, ctx |-> "none"]
 
-GatedStart == Card(DOMAIN s.io) < MaxIO /\ \E r \in ReqIO(s) : GatedWith(r)
+\* OPEN requests that the behaviour generator / the exhaustive model may hold in flight.
+ReqOpenGate(st) ==
+  CASE GateOpen = "all"  -> On("OPEN", ReqOpen(st)) \cup On("OPEN_PREV", ReqOpenPrev(st))
+    [] GateOpen = "prev" -> {r \in On("OPEN_PREV", ReqOpenPrev(st)) : st.oo[<<r.cid, r.ok>>].confirmed}
+    [] OTHER -> {}
+
+GatedStart == Card(DOMAIN s.io) < MaxIO /\ \E r \in ReqIO(s) \cup ReqOpenGate(s) : ~Blocked(s, r) /\ GatedWith(r)
 
 GatedEnd ==
   \E i \in DOMAIN s.io :
-    /\ s' = [IOEnd(s, s.io[i]) EXCEPT !.io = Del(@, {i})]
-    /\ last' = [kind |-> "ioend", req |-> [Blank("IOEND") EXCEPT !.st = i], rep |-> OkRep, ctx |-> "none"]
+    IF s.io[i].kind = "open"
+    THEN LET b == OpenEnd(s, s.io[i]) IN
+         /\ s' = [b.s EXCEPT !.io = Del(@, {i})]
+         /\ last' = [kind |-> "ioend", req |-> [Blank("IOEND") EXCEPT !.st = i], rep |-> b.rep, ctx |-> "none"]
+    ELSE /\ s' = [IOEnd(s, s.io[i]) EXCEPT !.io = Del(@, {i})]
+         /\ last' = [kind |-> "ioend", req |-> [Blank("IOEND") EXCEPT !.st = i], rep |-> OkRep, ctx |-> "none"]
 
 ClockTick ==
   \E d \in TickSet :
@@ -967,6 +1096,7 @@ Act_C19_Once       == [][StepProp(C19_Once)]_vars
 Act_C19_Same       == [][StepProp(C19_Same)]_vars
 Act_C19_Misordered == [][StepProp(C19_Misordered)]_vars
 Act_C19_FalseRetry == [][StepProp(C19_FalseRetry)]_vars
+Act_C19_LaxRetry   == [][StepProp(C19_LaxRetry)]_vars
 Act_C18_StateIds   == [][StepProp(C18_StateIds)]_vars
 Act_C20_Replies    == [][StepProp(C20_Replies)]_vars
 =============================================================================
